@@ -36,12 +36,7 @@ func verifStub_strconv_FormatFloat(f float64, fmt byte, prec, bitSize int) strin
 
 // ---- helpers intercepted by the engine (engine/intr_promql.go); these bodies are the native ones ----
 
-func verifIteInt(c bool, a, b int) int {
-	if c {
-		return a
-	}
-	return b
-}
+// verifIteInt is part of the common vocabulary (harness/common/support.go.tmpl)
 
 func verifIteBool(c, a, b bool) bool {
 	if c {
